@@ -119,7 +119,20 @@ PROPS = {
                     "sharing of one alias subtree between lines (finding F1) is runtime aliasing: covered by the harness and C08's object-graph audit"],
         "assumptions": [],
     },
-    "C02": {"harness": "c02", "theorems": [], "partial": [], "assumptions": []},
+    "C02": {
+        "harness": "c02",
+        "theorems": ["DL.C02_split", "DL.C02_bom", "DL.C02_crlf_file", "DL.C02_end_line", "DL.C02_end_dropped", "DL.skipWs_blanks",
+                     "DL.takeNewline_lf", "DL.takeNewline_crlf", "DL.C02_crlf_token", "DL.takeNewline_comment", "DL.newlines0_lf",
+                     "DL.skipIgnored_comment", "DL.C02_queries"],
+        "partial": ["the whole-text statement readDoc (render l1 d) = readDoc (render l2 d) is not a theorem yet: the Lean side proves the "
+                    "packaging clauses (files, byte order mark, CRLF, End lines) and the layout-absorbing lemmas of the reader's primitives; "
+                    "that every listed rewrite leaves every answer unchanged is carried by the metamorphic correspondence (all queries, "
+                    "random compositions of the edits, string / file / multi-file packaging), and the reader model itself is tied to the "
+                    "real LALR parser on every text of the run plus a malformed stream",
+                    "byte-level decoding by open() is modelled on characters (decodeFile) and exercised with real files"],
+        "assumptions": ["wrapping applies to a parameter list that has at least one item (a line end between a bare model name and its "
+                        "semicolon yields an empty list [] instead of '' - both 'empty'; observed, outside the listed edits)"],
+    },
     "C08": {
         "harness": "c08",
         "theorems": ["DL.C08_copy", "DL.C08_copy_prefix", "DL.C08_copy_miss", "DL.C08_copy_as_source", "DL.C08_pure", "DL.C08_reparse"],
